@@ -24,7 +24,14 @@ def sc(v):
 # ------------------------------------------------------------------ AlgebraicSigmoid
 def sigmoid_obligations(chk):
     from liesel.bijectors import AlgebraicSigmoid
-    b = AlgebraicSigmoid()
+
+    class _B:
+        """the bijector through its public TFP interface (a fresh instance per call: TFP caches forward/inverse pairs per instance)"""
+        _forward = staticmethod(lambda t: AlgebraicSigmoid().forward(t))
+        _inverse = staticmethod(lambda t: AlgebraicSigmoid().inverse(t))
+        _forward_log_det_jacobian = staticmethod(lambda t: AlgebraicSigmoid().forward_log_det_jacobian(t, event_ndims=0))
+        _inverse_log_det_jacobian = staticmethod(lambda t: AlgebraicSigmoid().inverse_log_det_jacobian(t, event_ndims=0))
+    b = _B
     x, y = z3.Real("as_x"), z3.Real("as_y")
     obs = []
     domx = {"as_x": (-3, 3)}
@@ -55,7 +62,34 @@ def sigmoid_obligations(chk):
     def g5(V):
         return [], cells(V.out)[0] == 0
     obs.append(Obligation("AlgebraicSigmoid: fldj(x) = -ildj(forward(x))", [e5], g5, signature="sigmoid:fldj-ildj", schemas=("pos", "inv", "unit", "recip"), timeout_s=60))
-    chk.functions += ["liesel.bijectors.AlgebraicSigmoid._forward/_inverse/_forward_log_det_jacobian/_inverse_log_det_jacobian"]
+    # float32: the forward log-det-Jacobian stays finite far out in the tails (|x| <= 1e6), where forward(x) itself saturates to +-1
+    F = z3.Float32()
+    xf = z3.FP("as_xf", F)
+    ef = chk.note_enc(Enc("fldj (float32)", lambda t: b._forward_log_det_jacobian(t), (0.3,), (np.array(xf, dtype=object).reshape(()),), mode="fp32"))
+
+    def g_fin(V):
+        out = cells(V.out)[0]
+        ax = []
+        for a_, t_ in V.I.log_terms:        # contract of the float32 logarithm: log(+-0) = -inf; finite and |.| <= 128 on finite positive arguments; NaN on negative ones
+            ax += [z3.Implies(z3.fpIsZero(a_), z3.And(z3.fpIsInf(t_), z3.fpIsNegative(t_))),
+                   z3.Implies(z3.And(z3.fpGT(a_, z3.FPVal(0, F)), z3.Not(z3.fpIsInf(a_))), z3.And(z3.fpLEQ(z3.fpAbs(t_), z3.FPVal(128.0, F)), z3.Not(z3.fpIsNaN(t_)))),
+                   z3.Implies(z3.fpLT(a_, z3.FPVal(0, F)), z3.fpIsNaN(t_))]
+        hy = [z3.Not(z3.fpIsNaN(xf)), z3.fpLEQ(z3.fpAbs(xf), z3.FPVal(1e6, F))]
+        return hy + ax, z3.And(z3.Not(z3.fpIsNaN(out)), z3.Not(z3.fpIsInf(out)))
+
+    def replay_fin(ob, model, rng):
+        from ..zeval import model_value
+        xv = float(model_value(model, xf, np.float32(0))) if model is not None else 4100.0
+        for cand in (xv, 5000.0, -5000.0, 1e5, 1e6):
+            got = float(AlgebraicSigmoid().forward_log_det_jacobian(jnp.float32(cand), event_ndims=0))
+            if not np.isfinite(got):
+                return dict(reproduced=True, inputs=dict(x=cand), observed=dict(forward_log_det_jacobian=str(got), log_derivative=float(-1.5 * np.log1p(np.float64(cand) ** 2))),
+                            note="forward log-det-Jacobian is not finite although the derivative of the forward map is positive")
+        return dict(reproduced=False, note="finite at the solver's point and at 4 tail points")
+    obs.append(Obligation("AlgebraicSigmoid (float32): the forward log-det-Jacobian is finite for every |x| <= 1e6 (no log(0) from a saturated forward value)", [ef], g_fin,
+                          signature="sigmoid:fldj-finite-fp32", replay=replay_fin, timeout_s=120))
+    obs[-1].probe_on_unknown = True
+    chk.functions += ["liesel.bijectors.AlgebraicSigmoid forward / inverse / forward_log_det_jacobian / inverse_log_det_jacobian (public TFP interface)"]
     return obs
 
 
